@@ -465,3 +465,39 @@ func resGenerate(rng *Rng, n int, tier string) []ResCase {
 	}
 	return cases
 }
+
+// Exhaustive UTF-8 sweep for the trimming model (thorough tier, shard 0): every 2-byte sequence with
+// a lead byte >= 0xC0, every lone byte >= 0x80, and the 3-byte sequences around the White_Space
+// code points, placed before and after "1k".
+func resExhaustiveTrim() []ResCase {
+	var out []ResCase
+	add := func(b []byte) {
+		pre := append(append([]byte{}, b...), '1', 'k')
+		post := append([]byte{'1', 'k'}, b...)
+		both := append(append(append([]byte{}, b...), '1', 'k'), b...)
+		for _, s := range [][]byte{pre, post, both} {
+			out = append(out, ResCase{Fn: "parse", S: resStrBytes(string(s))})
+		}
+	}
+	for b0 := 0x80; b0 <= 0xFF; b0++ {
+		add([]byte{byte(b0)})
+	}
+	for b0 := 0xC0; b0 <= 0xFF; b0++ {
+		for b1 := 0x80; b1 <= 0xBF; b1++ {
+			add([]byte{byte(b0), byte(b1)})
+		}
+	}
+	for _, b0 := range []byte{0xE0, 0xE1, 0xE2, 0xE3, 0xED, 0xEF} {
+		for _, b1 := range []byte{0x80, 0x81, 0x9A, 0xA0, 0xBF} {
+			for b2 := 0x7F; b2 <= 0xC0; b2++ {
+				add([]byte{b0, b1, byte(b2)})
+			}
+		}
+	}
+	for _, b0 := range []byte{0xF0, 0xF4} {
+		for _, b1 := range []byte{0x80, 0x8F, 0x90, 0xBF} {
+			add([]byte{b0, b1, 0x80, 0x80})
+		}
+	}
+	return out
+}
